@@ -13,7 +13,7 @@ from ._pairs import compare_all, table_state_keys, V
 
 PID = "C15"
 LEVEL = "model_checking"
-WITNESSES = ["weather_file_read_by_prepare_weather", "file_with_row_label_column", "permuted_columns", "extra_column", "reindexed", "extra_rows", "thermal_crop", "combined_transformations", "season_calendar_checked_by_name", "nights_below_base_temperature", "weather_matrix_checked_by_date", "same_dates_other_row_offset", "stepwise_blocks", "rerun_with_later_start", "yearly_periodic_weather"]
+WITNESSES = ["lars_baseline_file_read", "weather_file_read_by_prepare_weather", "file_with_row_label_column", "permuted_columns", "extra_column", "reindexed", "extra_rows", "thermal_crop", "combined_transformations", "season_calendar_checked_by_name", "nights_below_base_temperature", "weather_matrix_checked_by_date", "same_dates_other_row_offset", "stepwise_blocks", "rerun_with_later_start", "yearly_periodic_weather"]
 NONTRIVIAL = WITNESSES
 
 COLS = ["MinTemp", "MaxTemp", "Precipitation", "ReferenceET", "Date"]
@@ -46,6 +46,83 @@ def file_scenarios(tier):
         for lab in FILE_LABELS:
             for lead in (0, 200):
                 yield {"kind": "file", "crop": ck, "labels": lab, "lead": lead}
+    # LARS-WG baseline files over windows holding a leap year, the year after one and the year before one
+    for start, end in (("2000/04/27", "2001/07/03"), ("2001/04/27", "2002/07/03"), ("2003/04/27", "2004/07/03"), ("2004/04/27", "2005/07/03")):
+        for lead in (0, 150):
+            yield {"kind": "lars", "start": start, "end": end, "lead": lead}
+
+
+def run_lars(scn):
+    """The configured records written as a LARS-WG *baseline* file (year, day of year, Tmin, Tmax, rain, radiation) and read back with
+    prepare_lars_weather(generated=False): every record must carry the date its (year, day-of-year) pair denotes - the window 2000-2004
+    holds a leap year, the year after it and a year before one - and a run on that table must equal a run on the same values with
+    independently computed dates."""
+    import os
+    import tempfile
+    import datetime as _dt
+    from aquacrop.utils.lars import prepare_lars_weather
+
+    res = empty_result()
+    spec = A.to_spec(A._b(crop="maize.2", win="w2", word="mix", irr="smt"))
+    spec["start"], spec["end"] = scn["start"], scn["end"]
+    p = copy.deepcopy(spec)
+    p["weather"]["lead"] = scn["lead"]
+    p["weather"]["trail"] = 200
+    can = S.make_weather(p)
+    fd, path = tempfile.mkstemp(prefix="acmc_c15_lars_", suffix=".dat")
+    try:
+        with os.fdopen(fd, "w") as f:
+            for r in can.itertuples(index=False):
+                d = pd.Timestamp(r.Date)
+                f.write(f"{d.year} {d.dayofyear} {float(r.MinTemp)!r} {float(r.MaxTemp)!r} {float(r.Precipitation)!r} 20.0\n")
+        try:
+            df = prepare_lars_weather(path, -1, generated=False, order=["year", "jday", "minTemp", "maxTemp", "precip", "rad"])
+        except Exception as e:  # noqa: BLE001
+            res["evals"] = 1
+            res["violations"].append(V("equivalent-weather-table-raises", None, {"exc": type(e).__name__, "msg": str(e)[:160], "where": "prepare_lars_weather"}, "reads the file", sig=["lars-raise"]))
+            return res
+    finally:
+        try:
+            os.unlink(path)
+        except OSError:
+            pass
+    res["witness"]["lars_baseline_file_read"] = 1
+    res["evals"] = 1
+    exp_dates = pd.DatetimeIndex([_dt.datetime(int(pd.Timestamp(x).year), 1, 1) + _dt.timedelta(days=int(pd.Timestamp(x).dayofyear) - 1) for x in can["Date"].values])
+    got_dates = pd.DatetimeIndex(pd.to_datetime(df["Date"].values))
+    bad = None
+    if len(df) != len(can):
+        bad = {"rows": len(df), "rows_in_file": len(can)}
+    elif not (got_dates == exp_dates).all():
+        k = int(np.argmax(~(got_dates == exp_dates)))
+        bad = {"row": k, "date": str(got_dates[k]), "year_and_day_of_year_in_file": [int(exp_dates[k].year), int(exp_dates[k].dayofyear)]}
+    else:
+        for col in ("MinTemp", "MaxTemp", "Precipitation"):
+            if not np.array_equal(np.asarray(df[col], dtype=float), np.asarray(can[col], dtype=float)):
+                k = int(np.argmax(np.asarray(df[col], dtype=float) != np.asarray(can[col], dtype=float)))
+                bad = {"row": k, "column": col}
+                break
+    if bad is not None:
+        res["violations"].append(V("file-records-keep-their-dates", bad.get("row"), bad, "every record dated by its year and day of year", sig=["lars-dates"]))
+        return res
+    # the run on the helper's table against the run on the same values with the independently computed dates
+    ref = df.copy()
+    ref["Date"] = exp_dates
+    outs = []
+    for tab in (df, ref):
+        ent = S.make_entities(spec)
+        ent["weather_df"] = tab.reset_index(drop=True)
+        t, a, _ = run_plain(spec, entities=ent)
+        if a:
+            res["aborted"] = a
+            res["violations"].append(V("equivalent-weather-table-raises", None, {"exc": a.get("exc_type"), "origin": a.get("exc_origin"), "msg": (a.get("exc_msg") or "")[:160]}, "runs", sig=["lars-run-raise"]))
+            return res
+        outs.append(t)
+    res["states"], res["transitions"] = table_state_keys(outs[0])
+    if tables_digest(outs[0]) != tables_digest(outs[1]):
+        d = compare_all(outs[0], outs[1])
+        res["violations"].append(V("equivalent-weather-table-same-results", (d or {}).get("row"), {"first_difference": d}, "bitwise equal", sig=["lars-differs"]))
+    return res
 
 
 def run_file(scn):
@@ -409,6 +486,8 @@ def run(scn):
         return run_byname(scn)
     if scn.get("kind") == "file":
         return run_file(scn)
+    if scn.get("kind") == "lars":
+        return run_lars(scn)
     res = empty_result()
     spec, tb, dg = base_for(scn["crop"])
     p = copy.deepcopy(spec)
